@@ -264,4 +264,21 @@ def hexDigitVal (c : Char) : Option Nat :=
 def parseHex (cs : List Char) : Option Nat :=
   cs.foldl (fun acc c => acc.bind fun a => (hexDigitVal c).map (a * 16 + ·)) (some 0)
 
+/-! ### round 3b: `%p` at the level of the property text -/
+
+/-- what the property demands of the text of a `%p` conversion: `0x` followed by at
+least one hexadecimal digit, the digits parse back to the pointer — NO digit
+count, no filling up to the size of a pointer (igris' 16 digits are one admissible
+choice, `0x` + the significant digits another) -/
+def PtrText (p : Nat) (txt : List Char) : Prop :=
+  ∃ ds, ds ≠ [] ∧ txt = '0' :: 'x' :: ds ∧ parseHex ds = some p
+
+/-- the canonical form in which the correspondence compares `%p` texts: the digits
+are read back and printed the way the model prints a pointer (harness:
+`canon_p_field`; the blanks of the field are recomputed for that length) -/
+def canonPtrText (txt : List Char) : Option (List Char) :=
+  match txt with
+  | '0' :: 'x' :: ds => if ds = [] then none else (parseHex ds).map igrisPtr
+  | _ => none
+
 end Igris.C06.Iso
